@@ -1220,12 +1220,12 @@ static void bufr_put_ieeefp_compressed( BUFR_Message *msg, BUFR_Dataset *dts, in
       if (bcv->encoding.nbits == 64)
          {
          dval = bufr_value_get_double( bcv->value );
-         if (dval0 != dval) differs = 1;
+         if ((dval0 != dval)||(signbit(dval0) != signbit(dval))) differs = 1;   /* -0.0 == 0.0 but their bits differ */
          }
       else
          {
          fval = bufr_value_get_float( bcv->value );
-         if (fval0 != fval) differs = 1;
+         if ((fval0 != fval)||(signbit(fval0) != signbit(fval))) differs = 1;
          }
       }
    if (differs == 0)
